@@ -134,7 +134,14 @@ def bait_window(rng, labels):
     p = lambda: 1 if rng.random() < 0.15 else 0
     I = lambda m, op='', nb=2: ('I', m, p(), nb, 3, None, op)
     lab = rng.choice(labels) if labels else '.x'
-    w = rng.randrange(16)
+    w = rng.randrange(18)
+    if w >= 16:
+        # a label reached both by falling out of "LDA #v ; JMP lab" and by an earlier branch, then
+        # code that depends on the accumulator: the jump is removable, the knowledge about A is not
+        br = ('I', rng.choice(MN_BRANCH), 0, 2, 2, 3, lab)
+        use = rng.choice([[I('CMP', imm), ('I', rng.choice(['BNE', 'BEQ']), p(), 2, 2, 3, rng.choice(labels) if labels else '.x'), I('STA', mem)],
+                          [I('LDA', imm), I('STA', mem)], [I('STA', mem)]])
+        return [br, I('LDA', imm), ('I', 'JMP', p(), 3, 3, None, lab), ('L', lab)] + use
     if w == 0:
         return [I('LDA', o), I('STA', mem), I('LDA', o)]
     if w == 1:
@@ -177,7 +184,8 @@ def bait_window(rng, labels):
 
 def gen_opt_list(rng, maxlen=24):
     n = rng.randrange(0, maxlen)
-    labels = ['.l%d' % i for i in range(rng.randrange(0, 4))]
+    # label spellings include those inlining produces (suffix inline<N>, .endofinline<N>)
+    labels = [rng.choice(['.l%d', '.l%d', '.ifend%dinline1', '.endofinline%d', '.w%dinline23']) % i for i in range(rng.randrange(0, 4))]
     out = []
     placed = set()
     while len(out) < n:
@@ -256,3 +264,75 @@ def gen_cb_list(rng, wide=False):
         else:
             out.insert(rng.randrange(0, len(out) + 1), ('L', rng.choice(labels)))
     return out
+
+
+# ------------------------------------------------------------------ failure search for unit mismatches
+
+UNIT_VARS = [
+    {'name': 'a', 'type': 'CharPtr', 'size': 4, 'const': False, 'def': None, 'memory': 'Zeropage'},
+    {'name': 'b', 'type': 'CharPtr', 'size': 4, 'const': False, 'def': None, 'memory': 'Zeropage'},
+    {'name': 'c', 'type': 'Char', 'size': 1, 'const': False, 'def': None, 'memory': 'Zeropage'},
+    {'name': 'p', 'type': 'CharPtr', 'size': 1, 'const': False, 'def': None, 'memory': 'Zeropage'},
+    {'name': 'big', 'type': 'CharPtr', 'size': 4, 'const': False, 'def': None, 'memory': 'Zeropage'},
+    {'name': 'q', 'type': 'CharPtr', 'size': 400, 'const': False, 'def': None, 'memory': 'Other'},
+]
+
+
+def semantic_search(mism, rng, nstates=32, limit=300):
+    """When the model and optimize() disagree on a line list, look for a machine state on which the
+    list the implementation produced behaves differently from the list it was given (both run on
+    the extracted 6502 semantics, followed by the same tail: RTS, and every label the list
+    branches to but does not define, each followed by RTS).  -> list of violation payloads"""
+    from .coexec import make_layout, gen_states, prog_record, run_sem, observable
+    from .pipeline import describe_state, describe_run
+    lay = make_layout(UNIT_VARS, [])
+    RTS = ('I', 'RTS', 0, 1, 6, None, '')
+    text = []
+    meta = {}
+    for m in mism[:limit]:
+        impl = m.get('impl')
+        if not impl or impl[0] != 'ok':
+            continue
+        inp = [tuple(x) for x in m['input']]
+        out = [tuple(x) for x in impl[3]]
+        defined = [l[1] for l in inp if l[0] == 'L']
+        if len(defined) != len(set(defined)):
+            continue
+        if any(l[0] == 'I' and l[1] in ('JSR', 'PLA', 'PLP', 'PHA', 'PHP', 'RTS') for l in inp):
+            continue
+        targets = []
+        for l in inp:
+            if l[0] == 'I' and (l[1] in MN_BRANCH or l[1] in ('BVC', 'BVS', 'JMP')) and l[6] not in defined and l[6] not in targets:
+                targets.append(l[6])
+        tail = [RTS]
+        for t in targets:
+            tail += [('L', t), RTS]
+        states = gen_states(rng, lay, nstates, pointer_targets={'p': ['a', 'b', 'q']})
+        for k, st in enumerate(states):
+            if k % 2 == 0:
+                st['X'] = rng.randrange(4)
+                st['Y'] = rng.randrange(4)
+        try:
+            t1, w = prog_record(m['id'] + '@in', {'main': inp + tail}, lay, states, fuel=5000)
+            t2, _ = prog_record(m['id'] + '@out', {'main': out + tail}, lay, states, fuel=5000)
+        except Exception:
+            continue
+        text.append(t1 + t2)
+        meta[m['id']] = (m, states, w)
+    if not text:
+        return []
+    runs = run_sem(''.join(text))
+    found = []
+    for cid, (m, states, w) in meta.items():
+        for k in range(len(states)):
+            a = runs.get(cid + '@in', {}).get(k)
+            b = runs.get(cid + '@out', {}).get(k)
+            if a is None or b is None or a['tag'] != 'halt':
+                continue
+            if observable(a) != observable(b):
+                found.append({'why': 'optimize() changed the behaviour of this line list (not merely its text): same initial state, different final state',
+                              'input': m['input'], 'optimised_by_implementation': m['impl'][3], 'optimised_by_model': m['model'][3],
+                              'initial': describe_state(lay, states[k], w),
+                              'run_of_input': describe_run(lay, a, w), 'run_of_optimised': describe_run(lay, b, w)})
+                break
+    return found
